@@ -199,14 +199,20 @@ func (e *Engine) harnessCall(st *State, fn *ssa.Function, args []Value) (Value, 
 			bs[i] = e.fresh(fmt.Sprintf("%s#%d", tag, i), BV(8))
 		}
 		return StringVal{Bytes: bs}, true
-	case "verifAtom":
+	case "verifAtom", "verifAtomNS":
 		// verifAtom(tag, others, candidates...) : a string that is one of the candidates or one of `others` anonymous strings
 		tag := e.tagOf(args[0])
+		base := 0
+		if name == "verifAtomNS" {
+			ns, _ := e.concreteInt(st, args[1], "namespace")
+			base = ns * 100
+			args = append([]Value{args[0]}, args[2:]...)
+		}
 		others, _ := e.concreteInt(st, args[1], "others")
 		id := e.fresh(tag, IntSort)
 		var alts []*Term
 		if others > 0 {
-			alts = append(alts, And(IntCmp(">=", id, ConstInt(0)), IntCmp("<", id, ConstInt(int64(others)))))
+			alts = append(alts, And(IntCmp(">=", id, ConstInt(int64(base))), IntCmp("<", id, ConstInt(int64(base+others)))))
 		}
 		var cands []string
 		if sl, ok := args[2].(SliceVal); ok && sl.Obj != 0 {
@@ -245,6 +251,13 @@ func (e *Engine) harnessCall(st *State, fn *ssa.Function, args []Value) (Value, 
 		}
 		if !c.IsTrue() {
 			st.pc = append(st.pc, c)
+			// keep the invariant "live states have a satisfiable path condition"
+			r := e.S.Check(st.pc, nil)
+			e.S.EndModel()
+			if r == Unsat {
+				st.dead = true
+				st.why = "assumption infeasible"
+			}
 		}
 		return nil, true
 	case "verifAssert":
